@@ -7,6 +7,7 @@ import numpoly
 
 from ..baseclass import PolyLike
 from ..dispatch import implements
+from ..poly_function.sortable_proxy import sortable_ranks
 
 
 @implements(numpy.argmin)
@@ -55,7 +56,8 @@ def argmin(
     """
     a = numpoly.aspolynomial(a)
     options = numpoly.get_options()
-    proxy = numpoly.sortable_proxy(
+    # equal elements share their rank, so the first occurrence is selected
+    proxy = sortable_ranks(
         a, graded=options["sort_graded"], reverse=options["sort_reverse"]
     )
     return numpy.argmin(proxy, axis=axis, out=out)
